@@ -38,6 +38,13 @@ def rewrite_columns(lines, rng):
             elem = rng.choice(["  ", " X", "ZZ", ln[76:78]])
             chg = rng.choice(["  ", "1+", "2-"])
             ln = ln[:6] + serial + ln[11:54] + occ + bf + ln[66:76] + elem + chg
+            # records that end with the coordinates, or somewhere inside the columns after them (files written by tools that
+            # leave occupancy, B-factor, element and charge out)
+            cut = rng.randrange(8)
+            if cut == 0:
+                ln = ln[:54]
+            elif cut == 1:
+                ln = ln[:rng.choice([55, 60, 61, 66, 72, 76, 77, 78, 79])].rstrip() or ln[:54]
         out.append(ln)
     return out
 
